@@ -162,6 +162,8 @@ func init() {
 		}
 		// required keys of definitions that several allOf compositions share (every single deletion)
 		pcs = append(pcs, sharedDefinitionCases(c, "c04-shared-definitions")...)
+		// required names with characters that mean something to a format string, a template or a tag
+		pcs = append(pcs, requiredPunctuatedNames("c04-punctuated-names", false)...)
 		// random
 		pcs = append(pcs, randomTreeCases(c, "c04-random", c.N(250, 4000), treeOpts(), func(g *sgen.G, root sgen.M, base any) []any {
 			var docs []any
@@ -205,7 +207,22 @@ func init() {
 				}
 				tp, _ := node["properties"].(sgen.M)
 				t, _ := tp["t"].(sgen.M)
-				if _, hasDefault := t["default"]; !hasDefault {
+				_, hasDefault := t["default"]
+				if bs, ok := node["allOf"].([]any); ok {
+					// (the "after-shared-definition" way: the member sits in an inline allOf branch)
+					for _, b := range bs {
+						if bm, ok := b.(sgen.M); ok {
+							if bp, ok := bm["properties"].(sgen.M); ok {
+								if bt, ok := bp["t"].(sgen.M); ok {
+									if _, d := bt["default"]; d {
+										hasDefault = true
+									}
+								}
+							}
+						}
+					}
+				}
+				if !hasDefault {
 					continue
 				}
 				var vals []any
@@ -377,6 +394,26 @@ func init() {
 		}
 		// near-duplicate schemas under one Go type name (see neardup.go)
 		pcs = append(pcs, nearDupCases(c, "c02-near-duplicates")...)
+		// the helper types behind the string formats: extreme and ordinary texts (first and last representable day, leap
+		// day, midnight, the zero instant, the all-zero and all-one addresses) as a required member, an optional member,
+		// array items and map values: accepted and re-marshalled unchanged
+		fmtVals := map[string][]any{
+			"date":      {"0001-01-01", "1970-01-01", "2024-02-29", "9999-12-31", "2000-01-01"},
+			"time":      {"00:00:00", "12:00:00", "23:59:59", "00:00:01"},
+			"date-time": {"0001-01-01T00:00:00Z", "1970-01-01T00:00:00Z", "2024-02-29T12:30:00Z", "9999-12-31T23:59:59Z"},
+			"ipv4":      {"0.0.0.0", "127.0.0.1", "255.255.255.255"},
+			"ipv6":      {"::", "::1", "ffff:ffff:ffff:ffff:ffff:ffff:ffff:ffff", "2001:db8::1"},
+		}
+		for _, f := range core.SortedKeys(fmtVals) {
+			node := func() sgen.M { return sgen.M{"type": "string", "format": f} }
+			schema := sgen.M{"type": "object", "required": []any{"r"}, "properties": sgen.M{"r": node(), "o": node(),
+				"a": sgen.M{"type": "array", "items": node()}, "m": sgen.M{"type": "object", "additionalProperties": node()}}}
+			var docs []any
+			for _, v := range fmtVals[f] {
+				docs = append(docs, M{"r": v}, M{"r": v, "o": v}, M{"r": v, "a": []any{v, fmtVals[f][0]}}, M{"r": v, "m": M{"k": v}})
+			}
+			pcs = append(pcs, baseCase("c02-valid", schema, docs, "format-values", f))
+		}
 		// integer intervals with ONE exclusive side around every type edge, with and without --min-sized-ints: the two
 		// extreme admitted values (and two inside) are valid documents
 		for _, e := range []int64{126, 127, 128, 254, 255, 256, 32766, 32767, 32768, 65534, 65535, 65536, 2147483647, 2147483648, 4294967295, 4294967296} {
